@@ -475,6 +475,22 @@ pub fn run(cfg: &Cfg) -> Report {
         planned.push((u64::MAX, Planned { case: exec_case(&input, true, true), label: format!("script:type-confusion-{label}"), group: "hostile-scripts" }));
     }
 
+    // accessors taken from scalars of every JSON type, applied to scalars, canon streams and canon maps
+    for (label, result) in [("float", "1.5"), ("negative", "-1"), ("huge", "18446744073709551616"), ("u64max", "18446744073709551615"), ("i64min", "-9223372036854775808"), ("bool", "true"), ("null", "null"), ("object", "{\"a\":1}"), ("array", "[0]"), ("string", "\"k\""), ("empty-string", "\"\""), ("exp", "1e3")] {
+        let script = format!(
+            "(seq (call \"{0}\" (\"s\" \"acc\") [] k) (seq (seq (ap (\"k\" \"v\") %m) (seq (ap (1 \"w\") %m) (seq (ap \"x\" $st) (seq (canon \"{0}\" %m #%cm) (canon \"{0}\" $st #cs))))) (seq (xor (call \"{0}\" (\"s\" \"f1\") [#%cm.$.[k]]) (null)) (seq (xor (call \"{0}\" (\"s\" \"f2\") [#cs.$.[k]]) (null)) (seq (xor (ap (k \"z\") %m) (null)) (seq (xor (call \"{0}\" (\"s\" \"f3\") [k.$.[k]]) (null)) (xor (fold #%cm.$.[k] it (seq (null) (next it))) (null))))))))",
+            me.id
+        );
+        let w = World::new(1, script, None, "accessor", 3);
+        let first = invoke(&w.input(me));
+        let mut input = w.input(me);
+        input.prev = first.data.clone();
+        let mut m = std::collections::BTreeMap::new();
+        m.insert("1".to_string(), (0, result.to_string()));
+        input.call_results = CallResultsIn::Map(m);
+        planned.push((u64::MAX, Planned { case: exec_case(&input, true, true), label: format!("script:type-confusion-accessor-{label}"), group: "hostile-scripts" }));
+    }
+
     let unencodable = planned.iter().filter(|(_, p)| p.group == "unencodable").count();
     stats.inc("tamperings_not_representable_in_the_typed_format", unencodable as u64);
     planned.retain(|(_, p)| p.group != "unencodable");
